@@ -412,6 +412,23 @@ theorem sound (Sg : List Summary) (Φ : List Fn) (hT : TableOK Sg Φ) {s : Stmt}
         exact ⟨p, mem_uni.2 (Or.inr hp1), hp2⟩
     · exact hr.r
 
+theorem tableOK_append (Sg : List Summary) : ∀ (σ1 : List Summary) (f1 : List Fn) (σ2 : List Summary) (f2 : List Fn),
+    tableOK Sg σ1 f1 = true → tableOK Sg σ2 f2 = true → tableOK Sg (σ1 ++ σ2) (f1 ++ f2) = true := by
+  intro σ1
+  induction σ1 with
+  | nil =>
+    intro f1 σ2 f2 h1 h2
+    cases f1 with
+    | nil => simpa using h2
+    | cons a b => simp [tableOK] at h1
+  | cons σ σs ih =>
+    intro f1 σ2 f2 h1 h2
+    cases f1 with
+    | nil => simp [tableOK] at h1
+    | cons g gs =>
+      simp only [tableOK, Bool.and_eq_true, List.cons_append] at h1 ⊢
+      exact ⟨h1.1, ih gs σ2 f2 h1.2 h2⟩
+
 /-- soundness of the analysis for a function of the table (restated in Properties/C13.lean) -/
 theorem analyse_sound_aux (Sg : List Summary) (Φ : List Fn) (hT : tableOK Sg Sg Φ = true)
     (f : Nat) (fn : Fn) (allowed : List Nat) (hf : Φ[f]? = some fn)
